@@ -37,14 +37,14 @@ def plan(tier, seed):
             U += u(c, 'exh_canon', 4)
         U += u(dict({'signature': [-1, 0]}, opts={'cse': False}), 'exh_canon_sample', 2, frac=0.5)
         for c in rng.sample(d3, 8):
-            U += u(c, 'gradeblocks', 1, count=10, cap=4)
-            U += u(c, 'sparse', 1, count=14, cap=4, perm=0.3)
+            U += u(c, 'gradeblocks', 1, count=25, cap=4)
+            U += u(c, 'sparse', 1, count=40, cap=4, perm=0.3)
         U += u(dict({'p': 3, 'q': 0, 'r': 0}, opts={'cse': False}), 'sparse', 1, count=30, cap=4)
         for c in rng.sample(gen.pqr_all(4, 4), 5) + rng.sample(gen.pqr_all(5, 5), 3):
-            U += u(c, 'gradeblocks', 1, count=5, cap=6)
-            U += u(c, 'sparse', 1, count=10, cap=3 if gen.cfg_dim(c) == 5 else 4)
+            U += u(c, 'gradeblocks', 1, count=10, cap=6)
+            U += u(c, 'sparse', 1, count=25, cap=3 if gen.cfg_dim(c) == 5 else 4)
         for _ in range(8):
-            U += u(gen.random_custom_cfg(rng, rng.choice((2, 3, 3, 4))), 'sparse', 1, count=10, cap=4)
+            U += u(gen.random_custom_cfg(rng, rng.choice((2, 3, 3, 4))), 'sparse', 1, count=30, cap=4)
         for c in gen.NAMED[:2]:
             U += u(c, 'sparse', 1, count=10, cap=4)
         nshards = 16
